@@ -360,27 +360,50 @@ func logqlSites() {
 // bracket of BODY and replaces each run of other characters by x / y.
 var regexpTok = regexp.MustCompile(`(?s)\(\?P<|\(|\)|>|[a-zA-Z_][0-9a-zA-Z_]*|\\.|.`)
 
+// reGroupHead: what may follow an opening parenthesis and decides the kind of the group: a name, flags with ':' (non
+// capturing) or flags alone (no group at all: "(?i)" is one token that includes its closing parenthesis).
+var reGroupHead = regexp.MustCompile(`^\((\?P<[a-zA-Z_][0-9a-zA-Z_]*>|\?[a-zA-Z-]*:|\?[a-zA-Z-]+\))?`)
+
+// regexpStandIn builds the harmless twin of a regexp-stage body: every byte a group-counting rule can look at is kept
+// - parentheses WITH their group heads ((?P<name>, (?:, (?i:, (?i)), square brackets, escaped brackets - and every run
+// of other bytes becomes filler.  Which of these open a numbered group (the label-name array of the statement has one
+// entry per numbered group) is NOT decided here: the twin goes through the planner of the tree under test, so the
+// expected array is whatever that tree yields for a harmless regex of the same parenthesis structure - RE2 counting
+// or the older "every ( counts" alike.
 func regexpStandIn(body, filler string) string {
 	whole := "(?P<l>" + body + ")"
-	toks := regexpTok.FindAllString(whole, -1)
 	var b strings.Builder
 	inRun := false
-	for i := 0; i < len(toks); i++ {
-		t := toks[i]
+	structural := func(t string) {
+		b.WriteString(t)
+		inRun = false
+	}
+	for i := 0; i < len(whole); {
+		c := whole[i]
 		switch {
-		case t == "(?P<" && i+2 < len(toks) && toks[i+2] == ">":
-			b.WriteString(t + toks[i+1] + ">")
+		case c == '\\' && i+1 < len(whole):
+			if strings.IndexByte("()[]", whole[i+1]) >= 0 {
+				structural(whole[i : i+2])
+			} else if !inRun {
+				b.WriteString(filler)
+				inRun = true
+			}
 			i += 2
-			inRun = false
-		case t == "(?P<" || t == "(" || t == ")":
-			b.WriteString(t)
-			inRun = false
+			continue
+		case c == '(':
+			h := reGroupHead.FindString(whole[i:])
+			structural(h)
+			i += len(h)
+			continue
+		case c == ')' || c == '[' || c == ']':
+			structural(string(c))
 		default:
 			if !inRun {
 				b.WriteString(filler)
 			}
 			inRun = true
 		}
+		i++
 	}
 	out := b.String()
 	if !strings.HasPrefix(out, "(?P<l>") || !strings.HasSuffix(out, ")") {
